@@ -1,6 +1,21 @@
 import Driver.Mpt
+import Driver.StateCache
+import Driver.Wmpt
+import Driver.Currency
+import Driver.Merkle
+import Driver.Ring
+import Driver.MptStore
+import Driver.Codec
+/-- `modeld <model>`: reads op lines on stdin, prints one canonical output line per op line. -/
 def main (args : List String) : IO UInt32 := do
   match args with
   | ["sha3", s] => IO.println (Verif.Sha3.sha3Hex s); return 0
   | ["mpt"] => Driver.Mpt.main; return 0
+  | ["sc"] => Driver.StateCache.main; return 0
+  | ["wmpt"] => Driver.Wmpt.main; return 0
+  | ["currency"] => Driver.Currency.main; return 0
+  | ["merkle"] => Driver.Merkle.main; return 0
+  | ["ring"] => Driver.Ring.main; return 0
+  | ["mptstore"] => Driver.MptStore.main; return 0
+  | ["codec"] => Driver.Codec.main; return 0
   | _ => IO.eprintln "usage: modeld <model>"; return 2
